@@ -6,7 +6,7 @@ set -u
 id="$1"; src="$2"; prop="$3"; existing="$4"; demo="$5"
 HERE="$(cd "$(dirname "$0")/.." && pwd)"
 WT=/tmp/seedcheck_$id
-export CARGO_NET_OFFLINE=true CARGO_TARGET_DIR=/tmp/mut/target
+export CARGO_NET_OFFLINE=true CARGO_TARGET_DIR="${CONFIRM_TARGET:-/tmp/confirm_target}"
 out="$HERE/seeded/$id"; mkdir -p "$out"
 log="$out/confirm.log"; : > "$log"
 git -C /repo worktree remove --force "$WT" >/dev/null 2>&1
@@ -18,12 +18,14 @@ git apply "$src/demo.diff" || { res "demo.diff does not apply"; exit 3; }
 if cargo test --offline $demo >> "$log" 2>&1; then res "STEP1 demo on pristine code: PASS (expected)"; s1=ok; else res "STEP1 demo on pristine code: FAIL (unexpected)"; s1=bad; fi
 # 2 demo with patch: must fail
 git apply "$src/patch.diff" || { res "patch.diff does not apply"; exit 3; }
+git apply --numstat "$src/patch.diff" | awk '{print $3}' | while read -r f; do touch -d "+1 hour" "$f"; done
 if cargo test --offline $demo >> "$log" 2>&1; then res "STEP2 demo with the change: PASS (unexpected)"; s2=bad; else res "STEP2 demo with the change: FAIL (expected)"; s2=ok; fi
 # 3 existing tests with patch only: must pass
 git checkout -q -- . && git clean -fdq && git apply "$src/patch.diff"
+git apply --numstat "$src/patch.diff" | awk '{print $3}' | while read -r f; do touch -d "+2 hours" "$f"; done
 if cargo test --offline $existing >> "$log" 2>&1; then res "STEP3 existing tests ($existing) with the change: PASS (expected)"; s3=ok; else res "STEP3 existing tests with the change: FAIL (unexpected)"; s3=bad; fi
 grep -E "^test result" "$log" | tail -40 > "$out/test_results.txt"
 cd /; git -C /repo worktree remove --force "$WT"
-cp "$src/patch.diff" "$src/demo.diff" "$out/"; cp "$src/README.md" "$out/SEEDER_README.md" 2>/dev/null
+if [ "$(readlink -f "$src")" != "$(readlink -f "$out")" ]; then cp "$src/patch.diff" "$src/demo.diff" "$out/"; cp "$src/README.md" "$out/SEEDER_README.md" 2>/dev/null; fi
 echo "{\"id\": \"$id\", \"property\": \"$prop\", \"demo_pristine\": \"$s1\", \"demo_with_change\": \"$s2\", \"existing_tests_with_change\": \"$s3\", \"existing_cmd\": \"cargo test --offline $existing\", \"demo_cmd\": \"cargo test --offline $demo\"}" > "$out/confirm.json"
 cat "$out/confirm.json"
